@@ -4,6 +4,7 @@
 import PyndlProofs.SeqSchedule
 import PyndlProofs.Queue
 import PyndlProofs.Interleave
+import PyndlProofs.Bounds32
 
 namespace Pyndl.C02
 open Pyndl List
@@ -19,6 +20,20 @@ theorem sliceList_partition {α : Type} (xs : List α) (n : Nat) (hn : 1 ≤ n) 
 /-- the OpenMP `prange` bounds partition the outcome list, for every chunk ≥ 1 -/
 theorem ompParts_partition {α : Type} (xs : List α) (chunk : Nat) (hc : 1 ≤ chunk) :
     (ompParts xs chunk).flatten = xs := ompParts_flatten xs chunk hc
+
+/-- the `unsigned int` arithmetic of the OpenMP bounds does not wrap when
+    `n_outcomes + n_outcomes_per_job < 2³²`: the 32-bit bounds are the unbounded ones -/
+theorem ompParts_no_wrap (n chunk : UInt32) (hc : 1 ≤ chunk.toNat) (hfit : n.toNat + chunk.toNat < 4294967296) :
+    (ompBounds32 n chunk).map (fun p => (p.1.toNat, p.2.toNat)) = ompBounds n.toNat chunk.toNat :=
+  ompBounds32_eq n chunk hc hfit
+
+/-- the hypothesis is needed: with 2³²−2 outcomes and a chunk of 2³¹ the second
+    part's `start_val + chunksize` wraps to 0, its `end_val` becomes 0 < start and
+    the rows from 2³¹ on would never be trained (needs 16 GiB of weights: not
+    exercisable here, recorded as the model's explicit hypothesis) -/
+example : ompBounds32 4294967294 2147483648 = [(0, 2147483648), (2147483648, 0)] ∧
+    ompBounds 4294967294 2147483648 = [(0, 2147483648), (2147483648, 4294967294)] := by
+  decide +kernel
 
 /-- a duplicate-free outcome list is split into duplicate-free, pairwise
     disjoint parts by both partitioners -/
